@@ -462,9 +462,10 @@ func (gen *Generator) GenerateCond(args []Sexp) error {
 }
 
 func (gen *Generator) GenerateQuote(args []Sexp) error {
-	for _, expr := range args {
-		gen.AddInstruction(PushInstr{expr})
+	if len(args) != 1 {
+		return fmt.Errorf("quote takes exactly one argument")
 	}
+	gen.AddInstruction(PushInstr{args[0]})
 	return nil
 }
 
